@@ -34,7 +34,7 @@ SPEC_TYPE_PARAMS = {
     "eff_noise": ("eff_noise_rates", "eff_noise_opers"),
 }
 
-FAMILIES = ["channel", "device", "layout", "noise", "simconfig", "register", "detmap", "config", "results"]
+FAMILIES = ["channel", "device", "layout", "noise", "simconfig", "register", "detmap", "config", "results", "stateop"]
 
 FLOATS = [0.1, 0.25, 0.5, 1.0, 1.5, 2.0, 2.5, 4.0, 10.0, 12.5, 2 * math.pi, 15.7, 31.4, 125.66, 1e-3, 0.3, 7.0]
 
@@ -202,7 +202,9 @@ def gen_noise(rng, allow_irrelevant=True) -> dict:
     if "leakage" in types and "eff_noise" not in types:
         types.append("eff_noise")
     if "doppler" in types:
-        kw["temperature"] = rng.choice([50.0, 30, 0.5, 1000.0])
+        # lattice values, and 1-3 decimal values (x / 1e6 * 1e6 != x for about 3% of them, e.g. 510.15, 979.4)
+        kw["temperature"] = (rng.choice([50.0, 30, 0.5, 1000.0, 510.15, 979.4, 251.4]) if rng.random() < 0.5
+                             else round(rng.uniform(0.1, 1000.0), rng.choice([1, 2, 3])))
         need_runs = True
     if "amplitude" in types:
         r = rng.random()
@@ -253,7 +255,10 @@ def gen_noise(rng, allow_irrelevant=True) -> dict:
             kw["runs"] = rng.choice([1, 15])
         if rng.random() < 0.5 or "runs" not in kw:
             kw["samples_per_run"] = rng.choice([1, 5])
-    return dict(kw=kw)
+    spec = dict(kw=kw)
+    if "eff_noise_opers" in kw and rng.random() < 0.25:
+        spec["qobj"] = True  # the operators are handed over as qutip.Qobj
+    return spec
 
 
 def gen_device(rng) -> dict:
@@ -522,11 +527,24 @@ def gen_results(rng) -> dict:
                 entries=entries)
 
 
+def gen_stateop(rng) -> dict:
+    qutip = rng.random() < 0.3
+    n = rng.choice([1, 2, 3])
+    eig = ["r", "g"] if qutip else None
+    st = gen_state(rng, n=n, normalised=qutip)
+    if qutip:
+        st["eigenstates"] = ["r", "g"]
+        st = _fix_state_eig(st, rng)
+    return dict(cls="qutip" if qutip else "repr", state=st, operator=gen_operator(rng, eig=eig),
+                eig_container=rng.choice(["list", "tuple"]))
+
+
 GENERATORS = {
     "channel": lambda rng: (gen_dmm(rng) if rng.random() < 0.2 else gen_channel(rng)),
     "device": gen_device, "layout": gen_layout, "noise": gen_noise,
     "simconfig": lambda rng: gen_noise(rng, allow_irrelevant=False),
     "register": gen_register, "detmap": gen_detmap, "config": gen_config, "results": gen_results,
+    "stateop": gen_stateop,
 }
 
 
@@ -577,6 +595,10 @@ def build_noise(s):
     kw = dict(s["kw"])
     if "eff_noise_opers" in kw:
         kw["eff_noise_opers"] = tuple([[_cplx(e) for e in row] for row in op] for op in kw["eff_noise_opers"])
+        if s.get("qobj"):
+            import qutip
+
+            kw["eff_noise_opers"] = tuple(qutip.Qobj(np.array(op, dtype=complex)) for op in kw["eff_noise_opers"])
     if "eff_noise_rates" in kw:
         kw["eff_noise_rates"] = tuple(float(r) for r in kw["eff_noise_rates"])
     return pulser.NoiseModel(**kw)
@@ -717,6 +739,8 @@ def build(family: str, spec):
             return build_config(spec)
         if family == "results":
             return build_results(spec)
+        if family == "stateop":
+            return spec  # built (twice, from shared containers) inside run_stateop
     raise ValueError(family)
 
 
@@ -1073,7 +1097,8 @@ def _key(family, spec, clause, field=None, exc=None, obj=None, case=None) -> dic
     cls = {"channel": lambda: spec["cls"], "device": lambda: "VirtualDevice" if spec.get("virtual") else "Device",
            "layout": lambda: "RegisterLayout", "noise": lambda: "NoiseModel", "simconfig": lambda: "SimConfig",
            "register": lambda: "Register3D" if spec["dim"] == 3 else "Register", "detmap": lambda: "DetuningMap",
-           "config": lambda: spec["cls"], "results": lambda: "Results"}[family]()
+           "config": lambda: spec["cls"], "results": lambda: "Results",
+           "stateop": lambda: "QutipState" if spec["cls"] == "qutip" else "StateRepr"}[family]()
     k = dict(clause=clause, **{"class": cls})
     if field is not None:
         k["field"] = field
@@ -1114,6 +1139,9 @@ def _encode_case(family, spec, exc_name) -> str | None:
             return "energy_second_moment"
         if exc_name == "AttributeError" and has_eff:
             return "noise-model-with-eff_noise"
+    nspec = spec if family == "noise" else (spec.get("noise") if family in ("device", "config") else None)
+    if exc_name == "TypeError" and nspec and nspec.get("qobj"):
+        return "qobj-operator"
     return None
 
 
@@ -1245,7 +1273,15 @@ def monitor_simconfig(spec, nm) -> tuple[list[Fail], dict]:
     rename = {"state_prep_error": "eta", "p_false_pos": "epsilon", "p_false_neg": "epsilon_prime"}
     for p in sorted(rel):
         a, b = getattr(nm, p), getattr(back, p)
-        ok = _approx_equal(a, b)
+        if not _exact_equal(a, b):
+            # back in a NoiseModel the parameter must be *the same* value, not a neighbouring float
+            case = "float-rounding" if _approx_equal(a, b) else None
+            k = dict(clause="simconfig", **{"class": "SimConfig"}, field=p)
+            if case:
+                k["case"] = case
+            fails.append(Fail("simconfig", k, f"relevant parameter {p}: {a!r} -> {b!r}"))
+            continue
+        ok = True
         if p not in ("with_leakage",):
             c = getattr(sc, rename.get(p, p))
             if p == "temperature":
@@ -1259,6 +1295,22 @@ def monitor_simconfig(spec, nm) -> tuple[list[Fail], dict]:
     return fails, info
 
 
+def _exact_equal(a, b) -> bool:
+    if a is None or b is None:
+        return a is None and b is None
+    if isinstance(a, bool) or isinstance(b, bool):
+        return bool(a) == bool(b)
+    if isinstance(a, (list, tuple)) and isinstance(b, (list, tuple)) and len(a) != len(b):
+        return False
+    try:
+        if isinstance(a, (list, tuple)) and a and not np.isscalar(a[0]) and not isinstance(a[0], (list, tuple)):
+            a = [tb._oper_array(x) for x in a]  # operator objects
+        x, y = np.asarray(a, dtype=complex), np.asarray(b, dtype=complex)
+    except (TypeError, ValueError):
+        return a == b
+    return x.shape == y.shape and bool(np.array_equal(x, y))
+
+
 def _approx_equal(a, b) -> bool:
     if a is None or b is None:
         return a is None and b is None
@@ -1269,6 +1321,123 @@ def _approx_equal(a, b) -> bool:
     except (TypeError, ValueError):
         return a == b
     return x.shape == y.shape and bool(np.allclose(x, y, rtol=1e-12, atol=0.0))
+
+
+# --------------------------------------------------------------------------------------
+# states and operators on their own: round trip + "per-instance amplitudes / operations"
+# --------------------------------------------------------------------------------------
+_MUTABLE = (dict, list, set, bytearray, np.ndarray)
+
+
+def _mutables(obj, depth=4, seen=None) -> dict:
+    """ids of the mutable containers reachable from an object's attributes."""
+    seen = {} if seen is None else seen
+    if depth < 0:
+        return seen
+    vals = []
+    if isinstance(obj, dict):
+        vals = list(obj.values())
+    elif isinstance(obj, (list, tuple, set)):
+        vals = list(obj)
+    elif hasattr(obj, "__dict__") and not isinstance(obj, type):
+        vals = list(vars(obj).values())
+    for v in vals:
+        if isinstance(v, _MUTABLE):
+            if id(v) in seen:
+                continue
+            seen[id(v)] = v
+        if isinstance(v, (dict, list, tuple, set)) or (hasattr(v, "__dict__") and type(v).__module__.startswith(
+                ("pulser", "pulser_simulation"))):
+            _mutables(v, depth - 1, seen)
+    return seen
+
+
+def run_stateop(spec) -> list[Fail]:
+    """A state and an operator built twice from the *same* caller-owned containers: the two objects share no
+    mutable container, changing the caller's containers afterwards changes neither, and both survive their
+    abstract representation."""
+    from pulser.json.abstract_repr.backend import _deserialize_operator, _deserialize_state
+    from pulser.json.abstract_repr.serializer import AbstractReprEncoder
+
+    cfg_cls, state_cls, op_cls = _config_types("QutipConfig" if spec["cls"] == "qutip" else "EmulationConfig")
+    fails: list[Fail] = []
+    conv = list if spec["eig_container"] == "list" else tuple
+    with warnings.catch_warnings():
+        warnings.simplefilter("ignore")
+        # ---- state
+        st = spec["state"]
+        eig = conv(st["eigenstates"])
+        amps = {k: _cplx(v) for k, v in st["amplitudes"].items()}
+        a = state_cls.from_state_amplitudes(eigenstates=eig, amplitudes=amps)
+        before = snap_state(a)
+        b = state_cls.from_state_amplitudes(eigenstates=eig, amplitudes=amps)
+        shared = [type(v).__name__ for i, v in _mutables(a).items() if i in _mutables(b)]
+        key = lambda f, case: dict(clause="aliasing", **{"class": state_cls.__name__}, field=f, case=case)  # noqa: E731
+        if shared:
+            fails.append(Fail("aliasing", key("amplitudes", "shared-container"),
+                              f"two states built from the same arguments share mutable containers: {shared}"))
+        # the caller goes on using its containers
+        amps[next(iter(amps))] = 0.125
+        amps["".join(reversed(next(iter(amps))))] = 0.5
+        if isinstance(eig, list):
+            eig.append("x")
+        diffs = diff_values(before, snap_state(a))
+        if diffs:
+            fld = "eigenstates" if all("eigenstates" in d for d in diffs) else "amplitudes"
+            fails.append(Fail("aliasing", key(fld, "caller-container"),
+                              f"changing the caller's arguments after construction changed the state at {diffs[:3]}"))
+        else:
+            try:
+                j = json.loads(json.dumps(a, cls=AbstractReprEncoder))
+                back = _deserialize_state(j, state_cls)
+                d2 = diff_values(before, snap_state(back))
+                if d2:
+                    fails.append(Fail("roundtrip-field", dict(clause="roundtrip-field", **{"class": state_cls.__name__},
+                                                              field=d2[0].split(".")[1]),
+                                      f"state differs after the round trip at {d2[:3]}"))
+            except Exception as e:  # noqa: BLE001
+                fails.append(Fail("encode", dict(clause="encode", **{"class": state_cls.__name__},
+                                                 exception=type(e).__name__), f"state round trip raised {e!r}"[:300]))
+        # ---- operator
+        sp = spec["operator"]
+        eig = conv(sp["eigenstates"])
+        ops = [(_cplx(c), [({k: _cplx(v) for k, v in q.items()}, list(inds)) for q, inds in tensor])
+               for c, tensor in sp["operations"]]
+        oa = op_cls.from_operator_repr(eigenstates=eig, n_qudits=sp["n_qudits"], operations=ops)
+        before = snap_operator(oa)
+        ob = op_cls.from_operator_repr(eigenstates=eig, n_qudits=sp["n_qudits"], operations=ops)
+        key = lambda f, case: dict(clause="aliasing", **{"class": op_cls.__name__}, field=f, case=case)  # noqa: E731
+        if spec["cls"] == "repr":  # backend operators hold library-owned numerical objects; compare the repr data
+            shared = [type(v).__name__ for i, v in _mutables(oa).items() if i in _mutables(ob)]
+            if shared:
+                fails.append(Fail("aliasing", key("operations", "shared-container"),
+                                  f"two operators built from the same arguments share mutable containers: {shared}"))
+        for c, tensor in ops:
+            for q, inds in tensor:
+                q[next(iter(q))] = 0.125
+                if len(inds) > 1:
+                    inds.pop()
+        ops.append((1.0, []))
+        if isinstance(eig, list):
+            eig.append("x")
+        diffs = diff_values(before, snap_operator(oa))
+        if diffs:
+            fld = "eigenstates" if all("eigenstates" in d for d in diffs) else "operations"
+            fails.append(Fail("aliasing", key(fld, "caller-container"),
+                              f"changing the caller's arguments after construction changed the operator at {diffs[:3]}"))
+        else:
+            try:
+                j = json.loads(json.dumps(oa, cls=AbstractReprEncoder))
+                back = _deserialize_operator(j, op_cls)
+                d2 = diff_values(before, snap_operator(back))
+                if d2:
+                    fails.append(Fail("roundtrip-field", dict(clause="roundtrip-field", **{"class": op_cls.__name__},
+                                                              field=d2[0].split(".")[1]),
+                                      f"operator differs after the round trip at {d2[:3]}"))
+            except Exception as e:  # noqa: BLE001
+                fails.append(Fail("encode", dict(clause="encode", **{"class": op_cls.__name__},
+                                                 exception=type(e).__name__), f"operator round trip raised {e!r}"[:300]))
+    return fails
 
 
 # --------------------------------------------------------------------------------------
